@@ -908,7 +908,7 @@ def _beyond_barrier(viols, target):
     compared by the solver with barrier-clipped objective values: label the
     violations so that the known finding is keyed on this mechanism."""
     if target is not None and not math.isnan(target) and \
-            abs(target) >= BARRIER_REF:
+            target > -math.inf and abs(target) >= BARRIER_REF:
         for v in viols:
             if v["clause"] in ("status_without_event", "status_after_trigger",
                                "continued_after_trigger",
